@@ -1147,11 +1147,11 @@ pub fn configs(scen: &str, tier: &str) -> Vec<Cfg> {
         }
         // C12: lifecycle
         "pool.c12" => {
-            v.push(all("lifecycle", vec![(0, 1, 0)], 4, &["Return", "Delay5", "Delay5x2"], &[0], d(3, 3), &["submit", "pass", "adv", "wait", "cancel", "stop", "join"], d(5, 7)));
-            v.push(all("stopping-window", vec![(0, 2, 0)], 4, &["Return", "SubmitInside", "Delay100"], &[0], d(2, 3), &["submit", "pass", "adv", "stop"], d(4, 6)));
-            v.push(all("lifecycle-2", vec![(0, 2, 0)], 4, &["Return", "Suspend"], &[0], d(2, 3), &["submit", "pass", "wait", "stop", "join"], d(5, 7)));
+            v.push(all("lifecycle", vec![(0, 1, 0)], 4, &["Return", "Delay5", "Delay5x2"], &[0], d(3, 3), &["submit", "pass", "adv", "wait", "cancel", "stop", "join"], d(5, 8)));
+            v.push(all("stopping-window", vec![(0, 2, 0)], 4, &["Return", "SubmitInside", "Delay100"], &[0], d(2, 3), &["submit", "pass", "adv", "stop"], d(4, 7)));
+            v.push(all("lifecycle-2", vec![(0, 2, 0)], 4, &["Return", "Suspend"], &[0], d(2, 3), &["submit", "pass", "wait", "stop", "join"], d(5, 8)));
             // a task of one pool waits on the other pool, which may have been stopped meanwhile
-            v.push(all("wait-on-the-other-pool", vec![(0, 1, 0), (0, 1, 0)], 2, &["Return", "WaitOtherPool"], &[0], d(2, 2), &["submit", "pass", "stop"], d(4, 6)));
+            v.push(all("wait-on-the-other-pool", vec![(0, 1, 0), (0, 1, 0)], 2, &["Return", "WaitOtherPool"], &[0], d(2, 2), &["submit", "pass", "stop"], d(4, 7)));
         }
         // C13: cancel isolation
         "pool.c13" => {
